@@ -27,6 +27,7 @@
 (*   ce p        Commit completed           ab p       Abort called                       *)
 (*   fd p m      the environment put m into the Go channel read by p (channel flavour)    *)
 (*   qs p        quiescence: every sender is done and p has drained its mailbox           *)
+(*   px          the resource code panicked (the process hosting the resources died)      *)
 (* Flavours: "tcp" and "chan": writes become visible when Commit starts (tcp: as one      *)
 (* contiguous batch; chan: in order);                                                     *)
 (* "relaxed": a write is visible from the moment WriteValue is called (no rollback), a    *)
@@ -142,6 +143,7 @@ LStep(L, e) ==
       [] e.e = "ab" -> AbortCall(L, e.p)
       [] e.e = "fd" -> Feed(L, e.p, e.m)
       [] e.e = "qs" -> Quiesce(L, e.p)
+      [] e.e = "px" -> Bad(L, "crash")
       [] OTHER -> L          \* rt, ce, pc, informational events
 
 (* --- the property, one invariant per clause of the statement --------------------------- *)
@@ -151,4 +153,5 @@ OkRedeliver(L)    == L.bad # "redeliver"
 OkAllOrNothing(L) == L.bad # "aborted-delivered"
 OkLen(L)          == L.bad # "len"
 OkDrained(L)      == L.bad # "lost"
+OkNoCrash(L)      == L.bad # "crash"    \* time-outs and full buffers only abort the section in flight
 =============================================================================
